@@ -51,7 +51,7 @@ class Len(SObj):
     arithmetic on the values (value side: C06 ranges / C01)."""
 
     def __init__(self, val, name='len', args=None):
-        super().__init__('Array', attrs=dict(ndim=0, shape=(), dtype=NDType(INT)), classes=('Array',))
+        super().__init__('Array', attrs=dict(ndim=0, shape=(), dtype=NDType(INT), arguments=()), classes=('Array',))
         self.val = nps.simp(val)
         self.name = name
         self.attrs['isconstant'] = z3.is_int_value(self.val)
@@ -540,6 +540,9 @@ class Env:
         g['_LoopIndex'] = ClassRef('_LoopIndex', construct=self.c_loopindex)
         g['util'] = _Mod({'untake': untake}, 'util')
         g['isunit'] = self.isunit
+        g['asarray'] = lambda ctx, x: x if isinstance(x, (Arr, Len, Node)) else _unsupported('asarray(%r)' % (x,))
+        g['_LoopId'] = ClassRef('_LoopId')
+        g['LoopSum'] = ClassRef('LoopSum', construct=lambda ctx, loop_id, length, func, shape: self.new_node(ctx, 'LoopSum', loop_id=loop_id, length=length, func=func, shape=shape))
         g['repr'] = lambda ctx, x: repr(x) if isinstance(x, (_MulVar, int, str)) else _unsupported('repr of %r' % (x,))
         g['chr'] = lambda ctx, i: chr(i) if isinstance(i, int) else _unsupported('chr of %r' % (i,))
         return g
@@ -547,6 +550,13 @@ class Env:
     def nonneg(self, ctx, x):
         # _isindex: _intbounds[0] >= 0.  Every Len the configurations create is constrained >= 0; derived ones are checked
         return True
+
+    def new_node(self, ctx, cls, **fields):
+        node = Node(cls, self, **fields)
+        m = find_member(cls, '__post_init__')
+        if m and m[0] == 'def':
+            self.call(m[1].ref, node)
+        return node
 
     def isunit(self, ctx, x):
         """isunit(a): `a.simplified` is the constant 1 -- a syntactic test; True only if the value is 1, may be False for any value"""
@@ -663,10 +673,7 @@ class Meta(InProc, Contract):
 
     def body(self, cx, S, call):
         S.env.call = call
-        node = S.node
-        m = find_member(self.cls, '__post_init__')
-        if m and m[0] == 'def':
-            call(m[1].ref, node)
+        node = self.construct(cx, S, call)
         S.constructed = True
         shape = node.getattr(cx, 'shape')
         dtype = node.getattr(cx, 'dtype')
@@ -675,6 +682,13 @@ class Meta(InProc, Contract):
         c = find_member(self.cls, '_compile')
         out = call(c[1].ref, node, Builder(S.env))
         return unpx(out)
+
+    def construct(self, cx, S, call):
+        node = S.node
+        m = find_member(self.cls, '__post_init__')
+        if m and m[0] == 'def':
+            call(m[1].ref, node)
+        return node
 
     def ensures(self, cx, S, result):
         shape, dtype, ndim = S.announced
@@ -966,6 +980,53 @@ class SizesToOffsets(Meta):
         return dict(sizes=sizes)
 
 
+def loop_index(cx):
+    n = fresh_len(cx, 'looplength')
+    i = Len(cx.int('loopindex'), 'loopindex')
+    cx.assume(z3.And(0 <= i.val, i.val < n.val))
+    i.classes = ('_LoopIndex', 'Array')
+    i.attrs.update(loop_id=SObj('_LoopId', classes=('_LoopId',)), length=n)
+    i.attrs['arguments'] = (i,)
+    i.in_loop = True
+    return i
+
+
+class LoopSum(Meta):
+    """through the only constructor call site, the REAL `loop_sum(func, index)` (it passes func.shape as the shape field)"""
+    cls = 'LoopSum'
+
+    def __init__(self, **cfg):
+        super().__init__(**cfg)
+        self.fn = 'evaluable:loop_sum'
+
+    def fields(self, cx):
+        return {}
+
+    def construct(self, cx, S, call):
+        func = fresh_arr(cx, 'func', self.cfg['rank'], (INT, FLOAT, COMPLEX))
+        func.in_loop = True
+        func.attrs['arguments'] = ()
+        return call('evaluable:loop_sum', func, loop_index(cx))
+
+
+class LoopConcatenate(Meta):
+    cls = 'LoopConcatenate'
+
+    def fields(self, cx):
+        func = fresh_arr(cx, 'func', self.cfg['rank'])
+        func.in_loop = True
+        func.attrs['arguments'] = ()
+        i = loop_index(cx)
+        start, stop, total = Len(cx.int('start'), 'start'), Len(cx.int('stop'), 'stop'), fresh_len(cx, 'concat_length')
+        start.in_loop = stop.in_loop = True
+        sh = func.attrs['shape']
+        if sh:
+            cx.assume(z3.And(0 <= start.val, start.val <= stop.val, stop.val <= total.val, stop.val - start.val == sh[-1].val),
+                      axiom='LoopConcatenate: 0 <= start <= stop <= concat_length and stop - start == func.shape[-1] at every iteration '
+                            '(established by loop_concatenate via _SizesToOffsets of the chunk lengths; NOT under contract here)')
+        return dict(loop_id=i.attrs['loop_id'], length=i.attrs['length'], func=func, start=start, stop=stop, concat_length=total)
+
+
 def _ranks(cls, ranks, **kw):
     return [cls(rank=r, **kw) for r in ranks]
 
@@ -996,6 +1057,7 @@ def meta_contracts():
     cs += [Legendre(rank=r, degree=d) for r, d in ((0, 0), (1, 0), (1, 1), (1, 3), (2, 2))]
     cs += _ranks(Choose, (0, 1, 2))
     cs += [SearchSorted(rank=r, sorter=so, side=si) for r, so, si in ((0, False, 'left'), (1, False, 'right'), (2, True, 'left'), (1, True, 'right'))]
+    cs += _ranks(LoopSum, (0, 1, 2)) + _ranks(LoopConcatenate, (1, 2))
     cs += _ranks(ArgSort, (1, 2)) + [UniqueMask(rank=1), UniqueInverse(), Find(), SizesToOffsets()]
     return cs
 
